@@ -79,7 +79,6 @@ def pairs(lst):
 # ------------------------------------------------------------------------------------------------
 # sequence forms (`*_der_seq`) and delegating routines
 # ------------------------------------------------------------------------------------------------
-STATE = ('Pnm2', 'Pnm1', 'Pn')
 
 
 def seq_sweep(module, fn, extra_names=()):
@@ -148,7 +147,7 @@ def seq_sweep(module, fn, extra_names=()):
         and isinstance(it_exp.args[0], ast.Constant) and isinstance(it_exp.args[0].value, int) else None
     rng_ok = start is not None and norm(unp(it_exp)) == norm(f'range({start}, ns[-1] + 1)')
     # one iteration, symbolically, from fresh locals
-    killed = names_stored([loop]) | set(STATE)
+    killed = names_stored([loop])
     benv = {k: v for k, v in env.items() if k not in killed and not ({n.id for n in ast.walk(v) if isinstance(n, ast.Name)} & killed)}
     paths = sx.block(list(loop.body), benv, [], [])
     emitting = [p for p in paths if any(ev[0] == 'store' and unp(ev[1]) == 'out[min_i]' for ev in p.events)]
@@ -172,20 +171,27 @@ def seq_sweep(module, fn, extra_names=()):
     falls = [p for p in paths if p.kind == 'fall']
     if not falls:
         raise Untranslatable('no path falls through the loop body')
-    nxt = {nm: final(falls[0], nm) for nm in STATE}
-    same = all(unp(final(p, nm)) == unp(nxt[nm]) for p in falls for nm in STATE)
     bump_ok = all(unp(final(p, 'min_i')) == 'min_i + 1' for p in emitting) and all(unp(final(p, 'min_i')) == 'min_i' for p in quiet)
-    init = {nm: env.get(nm) for nm in STATE}
-    return dict(rows=rows, init=init, nxt=nxt, emit=emit, it=it, first=first, env=env, start=start,
-                ok=order_ok and rng_ok and guard_ok and same and bump_ok)
-
-
-def live_state(sw):
-    """locals among Pnm2 / Pnm1 / Pn that an iteration reads before writing"""
+    # the loop-carried locals: stored in the loop body AND read by an iteration before it writes them (whatever they are called);
+    # exactly two, and the next value of one of them is the other (the "older" polynomial takes over the "newer" one)
+    stored = {n for n in killed if n not in (it, 'min_i', 'out')}
     used = set()
-    for e in list(sw['nxt'].values()) + [sw['emit']]:
-        used |= {n.id for n in ast.walk(e) if isinstance(n, ast.Name) and n.id in STATE}
-    return used
+    for e in [final(falls[0], nm) for nm in stored] + [emit]:
+        used |= {n.id for n in ast.walk(e) if isinstance(n, ast.Name) and n.id in stored}
+    if len(used) != 2:
+        raise Untranslatable(f'{fn.name}: the loop carries {sorted(used)} from one iteration to the next (expected two polynomials)')
+    nxt = {nm: final(falls[0], nm) for nm in used}
+    older = [nm for nm in used if isinstance(nxt[nm], ast.Name) and nxt[nm].id in used and nxt[nm].id != nm]
+    if len(older) != 1:
+        raise Untranslatable(f'{fn.name}: no shift between the carried polynomials')
+    older = older[0]
+    newer = (used - {older}).pop()
+    same = all(unp(final(p, nm)) == unp(nxt[nm]) for p in falls for nm in used)
+    init = {nm: env.get(nm) for nm in used}
+    if any(v is None for v in init.values()):
+        raise Untranslatable(f'{fn.name}: a carried polynomial is not initialised before the loop')
+    return dict(rows=rows, init=init, nxt=nxt, emit=emit, it=it, first=first, env=env, start=start, older=older, newer=newer,
+                ok=order_ok and rng_ok and guard_ok and same and bump_ok)
 
 
 def abc_calls(exprs, fname='recurrence_abc'):
@@ -204,14 +210,14 @@ def hermite_seq_item(her):
     for name, lname in (('hermite_He_der_seq', 'heSeq'), ('hermite_H_der_seq', 'hSeq')):
         fn = normalised_def(her, name)
         sw = seq_sweep(her, fn)
-        live = live_state(sw)
-        if live != {'Pnm2', 'Pnm1'} or sw['first'] != 3 or any(sw['init'][k] is None for k in live):
-            raise Untranslatable(f'{name}: state is {sorted(live)}, explicit rows {sorted(sw["rows"])}')
-        tab = {'x': 'x', sw['it']: 'nn', 'Pnm2': 'q2', 'Pnm1': 'q1'}
+        if sw['first'] != 3:
+            raise Untranslatable(f'{name}: explicit rows {sorted(sw["rows"])}')
+        o, nw = sw['older'], sw['newer']
+        tab = {'x': 'x', sw['it']: 'nn', o: 'q2', nw: 'q1'}
         for k in (0, 1, 2):
             out.append(f'def {lname}Row{k} (x : K) : K := {N(sw["rows"][k], {"x": "x"})}')
-        out.append(f'def {lname}Init (x : K) : K × K := ({N(sw["init"]["Pnm2"], {"x": "x"})}, {N(sw["init"]["Pnm1"], {"x": "x"})})')
-        out.append(f'def {lname}Next (nn x q2 q1 : K) : K × K := ({N(sw["nxt"]["Pnm2"], tab)}, {N(sw["nxt"]["Pnm1"], tab)})')
+        out.append(f'def {lname}Init (x : K) : K × K := ({N(sw["init"][o], {"x": "x"})}, {N(sw["init"][nw], {"x": "x"})})')
+        out.append(f'def {lname}Next (nn x q2 q1 : K) : K × K := ({N(sw["nxt"][o], tab)}, {N(sw["nxt"][nw], tab)})')
         out.append(f'def {lname}Emit (nn x q2 q1 : K) : K := {N(sw["emit"], tab)}')
         out.append(f'def {lname}LoopStart : Int := {sw["start"]}')
         out.append(f'def {lname}Structure : Bool := {tri(sw["ok"])}')
@@ -221,11 +227,11 @@ def hermite_seq_item(her):
 def jacobi_seq_item(jac):
     fn = normalised_def(jac, 'jacobi_der_seq')
     sw = seq_sweep(jac, fn)
-    live = live_state(sw)
-    if live != {'Pnm1', 'Pn'} or sw['first'] != 4 or any(sw['init'][k] is None for k in live):
-        raise Untranslatable(f'jacobi_der_seq: state is {sorted(live)}, explicit rows {sorted(sw["rows"])}')
+    if sw['first'] != 4:
+        raise Untranslatable(f'jacobi_der_seq: explicit rows {sorted(sw["rows"])}')
+    o, nw = sw['older'], sw['newer']
     # recurrence_abc calls: one in the explicit part (order 1), one in the loop (order i - 1), both with the shifted shape
-    pre = abc_calls([sw['rows'][3], sw['init']['Pn']])
+    pre = abc_calls([sw['rows'][3], sw['init'][nw]])
     inl = abc_calls(list(sw['nxt'].values()) + [sw['emit']])
     if len(pre) != 1 or len(inl) != 1:
         raise Untranslatable('jacobi_der_seq: recurrence_abc is not called once before and once inside the loop')
@@ -234,10 +240,10 @@ def jacobi_seq_item(jac):
     same_shape = [unp(a) for a in pcall.args[1:]] == [unp(a) for a in icall.args[1:]]
     base = {'alpha': 'alpha', 'beta': 'beta', 'x': 'x'}
     tp = dict(base, **{f'{ptxt}[0]': 'A', f'{ptxt}[1]': 'B', f'{ptxt}[2]': 'C'})
-    ti = dict(base, **{f'{itxt}[0]': 'A', f'{itxt}[1]': 'B', f'{itxt}[2]': 'C', sw['it']: 'i', 'Pnm1': 'q1', 'Pn': 'q0'})
+    ti = dict(base, **{f'{itxt}[0]': 'A', f'{itxt}[1]': 'B', f'{itxt}[2]': 'C', sw['it']: 'i', o: 'q1', nw: 'q0'})
     out = [f'def jacSeqRow{k} (alpha beta x A B C : K) : K := {N(sw["rows"][k], tp)}' for k in (0, 1, 2, 3)]
-    out.append(f'def jacSeqInit (alpha beta x A B C : K) : K × K := ({N(sw["init"]["Pnm1"], tp)}, {N(sw["init"]["Pn"], tp)})')
-    out.append(f'def jacSeqNext (i alpha beta x A B C q1 q0 : K) : K × K := ({N(sw["nxt"]["Pnm1"], ti)}, {N(sw["nxt"]["Pn"], ti)})')
+    out.append(f'def jacSeqInit (alpha beta x A B C : K) : K × K := ({N(sw["init"][o], tp)}, {N(sw["init"][nw], tp)})')
+    out.append(f'def jacSeqNext (i alpha beta x A B C q1 q0 : K) : K × K := ({N(sw["nxt"][o], ti)}, {N(sw["nxt"][nw], ti)})')
     out.append(f'def jacSeqEmit (i alpha beta x A B C q1 q0 : K) : K := {N(sw["emit"], ti)}')
     out.append(f'def jacSeqShape (alpha beta : K) : K × K := ({shape[0]}, {shape[1]})')
     out.append(f'def jacSeqInitABCIdx : Int := {I(pcall.args[0], [])}')
@@ -323,29 +329,46 @@ def delegations(che, leg, lag, zer):
             out.append(f'def legendre{tag}{lsfx}Shape : K × K := ({r["shape"][0]}, {r["shape"][1]})')
             oks.append(r['ok'] and r['unnormalised'])
     out.append(f'def chebyLegendreDerivativesDelegateToJacobiAtSameOrdersAndPoint : Bool := {tri(all(oks))}')
-    # laguerre_der_seq: rows below order k are zero, the others are (-1)**k * laguerre_seq([n - k ...], alpha + k, x)
-    fn = normalised_def(lag, 'laguerre_der_seq')
-    k_ok = norm(unp(find_assign(fn, 'k'))) == '1'
-    calls = find_calls(fn, 'laguerre_seq')
-    if len(calls) != 1 or len(calls[0].args) != 3:
+    # laguerre_der_seq: rows below order k are zero, the others are (-1)**k * laguerre_seq([n - k ...], alpha + k, x); every local
+    # (k, low, sign, shifted orders) is expanded by symbolic execution, so named intermediate steps do not matter
+    fn = copy.deepcopy(normalised_def(lag, 'laguerre_der_seq'))
+    fn.body = [st for st in fn.body if not (isinstance(st, ast.Assign) and unp(st.targets[0]) == 'ns' and unp(_strip(st.value)) == 'ns')]
+    sx = SymEx(lag)
+    paths = sx.run(fn)
+    if any(p.kind != 'return' for p in paths):
+        raise Untranslatable('laguerre_der_seq: a path does not return')
+    storing = [p for p in paths if any(ev[0] == 'store' for ev in p.events)]
+    if len(storing) != 1 or len([ev for ev in storing[0].events if ev[0] == 'store']) != 1:
+        raise Untranslatable('laguerre_der_seq: not exactly one store into the table')
+    tgt, val = [ev for ev in storing[0].events if ev[0] == 'store'][0][1:3]
+    lows = [norm('sum((1 for n in ns if n < 1))'), norm('len([n for n in ns if n < 1])'), norm('sum([1 for n in ns if n < 1])')]
+    low_txt = next((l for l in lows if norm(unp(tgt)) == norm(f'out[{l}:]')), None)
+    if low_txt is None:
+        raise Untranslatable(f'laguerre_der_seq: rows are stored into {unp(tgt)}')
+    if not (isinstance(val, ast.BinOp) and isinstance(val.op, ast.Mult)):
+        raise Untranslatable('laguerre_der_seq: stored rows are not sign * laguerre_seq(...)')
+    sides = [val.left, val.right]
+    calls = [e for e in sides if isinstance(e, ast.Call) and unp(e.func) == 'laguerre_seq']
+    if len(calls) != 1 or len(calls[0].args) != 3 or calls[0].keywords:
         raise Untranslatable('laguerre_der_seq does not call laguerre_seq once')
     call = calls[0]
+    sign = [e for e in sides if e is not call][0]
+    sign_ok = norm(unp(sign)) in (norm('(-1) ** 1'), '-1')
     comp = call.args[0]
     if not (isinstance(comp, ast.ListComp) and len(comp.generators) == 1 and not comp.generators[0].ifs
             and isinstance(comp.generators[0].target, ast.Name)):
         raise Untranslatable('laguerre_der_seq: orders are not a list comprehension')
     v = comp.generators[0].target.id
-    order = Tr({v: 'n', 'k': '(1 : Int)'}, mode='int').expr(comp.elt)
-    shape = Tr(nenv({'alpha': 'alpha', 'k': '(ofInt 1)'}), mode='num').expr(call.args[1])
-    src_ok = norm(unp(comp.generators[0].iter)) == norm('ns[low:]') and unp(call.args[2]) == 'x'
-    low_ok = norm(unp(find_assign(fn, 'low'))) == norm(f'sum((1 for n in ns if n < k))')
-    outz = norm(unp(find_assign(fn, 'out'))).startswith('np.zeros(')
-    stores = [s for s in ast.walk(fn) if isinstance(s, ast.Assign) and unp(s.targets[0]) == 'out[low:]']
-    sign_ok = len(stores) == 1 and isinstance(stores[0].value, ast.BinOp) and isinstance(stores[0].value.op, ast.Mult) \
-        and norm(unp(stores[0].value.left)) == norm('(-1) ** k') and stores[0].value.right is call
+    order = Tr({v: 'n'}, mode='int').expr(comp.elt)
+    shape = Tr(nenv({'alpha': 'alpha'}), mode='num').expr(call.args[1])
+    src_ok = norm(unp(comp.generators[0].iter)) == norm(f'ns[{low_txt}:]') and unp(call.args[2]) == 'x'
+    gtext, gpol = canon_cond(ast.parse(f'{low_txt} < len(ns)', mode='eval').body, True)
+    guard_ok = (gtext, gpol) in storing[0].conds and all((gtext, not gpol) in p.conds for p in paths if p is not storing[0])
+    binds = [ev for ev in storing[0].events if ev[0] == 'bind' and unp(ev[1]) == 'out']
+    outz = len(binds) == 1 and unp(binds[0][2]).startswith('np.zeros(') and all(unp(p.value) == 'out' for p in paths)
     out.append(f'def lagSeqOrder (n : Int) : Int := {order}')
     out.append(f'def lagSeqShape (alpha : K) : K := {shape}')
-    out.append(f'def lagSeqRowsAreZeroBelowOrderOneAndMinusLaguerreSeqAbove : Bool := {tri(k_ok and src_ok and low_ok and outz and sign_ok)}')
+    out.append(f'def lagSeqRowsAreZeroBelowOrderOneAndMinusLaguerreSeqAbove : Bool := {tri(src_ok and guard_ok and outz and sign_ok)}')
     # zernike_nm_der_seq: row j is zernike_nm_der(n, m, r, t, norm=norm) for the j-th pair
     fn = normalised_def(zer, 'zernike_nm_der_seq')
     loops = for_loops(fn)
